@@ -317,7 +317,8 @@ CLAIM = dict(
          'invariant HInv holds afterwards (ids = indices, owner = header, names pairwise distinct, name table exact, unlisted items released); MergeHeaders links '
          'every source reference to an owned, listed reference of the same name and length. The model is run step by step against the implementation on random '
          'edit histories on every run, and an independent oracle checks the invariants and the text/binary round trips on the real objects. '
-         'Round trips: only the lexical half is proved (header_text_roundtrip_partial); the rest is covered by oracle and correspondence, not by a theorem.',
+         'Text and binary round trips are proved in full for every header of an HInv world whose values are printable (WFH: no TAB/LF/CR in values, ranges, canonical dates/URIs, distinct non-standard tags): '
+         'NewHeader(MarshalText h) and DecodeBinary(EncodeBinary h) succeed and expose the same values, text and bytes (incl. non-standard @SQ tags).',
     note='Trusted: Coq kernel; the hand model (tied to the code by correspondence runs only); opaque time/URL functions (tables validated against the libraries on every run); '
          'Go maps as association lists; sort.Sort on tag pairs as insertion sort (tags unique per item). 13 defects found and repaired in the library (see design/C07.md).',
     technique='Coq proof over hand model (invariant by induction over histories) + vm_compute correspondence on edit histories + invariant/round-trip oracle on the real objects',
